@@ -26,7 +26,7 @@ Definition content_of (alias profile_name issuer : bytes) (p : option Effective.
   match effective p c with
   | None => None
   | Some e =>
-    if (cc_serial e <? 0)%Z then None else
+    if (cc_serial e <? 0)%Z || (9223372036854775807 <? cc_serial e)%Z then None else
     match parse_rdn (cc_subject e), to_time_struct (negb (fx_date cur_mfx)) (cc_validity e) now,
           uid_field cur_fx (cc_issuer_uid e), uid_field cur_fx (cc_subject_uid e), parse_manip (cc_manip e) with
     | Some subj, Some v, Some iu, Some su, Some pm =>
